@@ -26,7 +26,10 @@ def run(repo: Repo, tier, rep: Report):
     from sa.fileformat import check_file_format
     from sa.line_model import check_parser, check_decorator
     m = check_file_format(repo, rep, "interactions", parts=("writer", "reader"))
-    rep.floor("writer/reader table instances (interactions)", m, 12)
+    rep.floor("writer/reader table instances (interactions)", m, 9)
+    from sa.writer_file import check_writer_file, check_reader_file
+    rep.floor("file assembly: row counts interpreted", check_writer_file(repo, rep, "interactions", tier), 4)
+    rep.floor("file decoding: reader runs interpreted", check_reader_file(repo, rep, "interactions"), 2)
     rep.floor("parser cases interpreted", check_parser(repo, rep, "interactions"), 100)
     rep.floor("open_file cases interpreted", check_decorator(repo, rep), 10)
 
